@@ -20,6 +20,7 @@ import (
 	"go/parser"
 	"go/token"
 	"os"
+	"os/exec"
 	"path/filepath"
 	"sort"
 	"strings"
@@ -27,11 +28,33 @@ import (
 
 const hookPkg = `// Package verifhook is added to a scratch copy of the module by /verif's
 // yieldinject; it does not exist in the real repository.
+//
+// Besides the statement-level Yield it holds COOPERATIVE stand-ins for the
+// blocking primitives of package sync (Mutex, RWMutex, Once, WaitGroup) and for
+// the go statement. In a simulation (hooks set) a task that cannot proceed
+// gives way to another task instead of blocking the thread, and a goroutine
+// started by the code under test becomes a task of the simulated scheduler, so
+// the simulator decides every interleaving inside such code too. Without hooks
+// (the library's own tests on the rewritten copy, world construction) they
+// behave like the real thing.
 package verifhook
 
-// Y, when set by the simulator, parks the calling task and lets the scheduler
-// decide who runs next.
+import (
+	"runtime"
+	"sync"
+	"sync/atomic"
+)
+
+// Y, when set by the simulator, is a scheduling point: the scheduler may let
+// another task run.
 var Y func()
+
+// B, when set, is called by a task that cannot proceed: the scheduler must let
+// another task run.
+var B func()
+
+// G, when set, starts f as a new simulated task.
+var G func(f func())
 
 // Yield is called before every statement of the instrumented packages.
 func Yield() {
@@ -39,20 +62,258 @@ func Yield() {
 		Y()
 	}
 }
+
+func block() {
+	if B != nil {
+		B()
+		return
+	}
+	runtime.Gosched()
+}
+
+// Go stands in for the go statement (function value and arguments are
+// evaluated by the caller, as the go statement does).
+func Go(f func()) {
+	if G != nil {
+		G(f)
+		return
+	}
+	go f()
+}
+
+// Mutex stands in for sync.Mutex.
+type Mutex struct{ mu sync.Mutex }
+
+func (m *Mutex) Lock() {
+	if B == nil {
+		m.mu.Lock()
+		return
+	}
+	for !m.mu.TryLock() {
+		block()
+	}
+}
+func (m *Mutex) Unlock()       { m.mu.Unlock() }
+func (m *Mutex) TryLock() bool { return m.mu.TryLock() }
+
+// RWMutex stands in for sync.RWMutex.
+type RWMutex struct{ mu sync.RWMutex }
+
+func (m *RWMutex) Lock() {
+	if B == nil {
+		m.mu.Lock()
+		return
+	}
+	for !m.mu.TryLock() {
+		block()
+	}
+}
+func (m *RWMutex) Unlock()       { m.mu.Unlock() }
+func (m *RWMutex) TryLock() bool { return m.mu.TryLock() }
+func (m *RWMutex) RLock() {
+	if B == nil {
+		m.mu.RLock()
+		return
+	}
+	for !m.mu.TryRLock() {
+		block()
+	}
+}
+func (m *RWMutex) RUnlock()       { m.mu.RUnlock() }
+func (m *RWMutex) TryRLock() bool { return m.mu.TryRLock() }
+
+type rlocker RWMutex
+
+func (r *rlocker) Lock()   { (*RWMutex)(r).RLock() }
+func (r *rlocker) Unlock() { (*RWMutex)(r).RUnlock() }
+
+// RLocker returns a Locker whose Lock and Unlock are RLock and RUnlock.
+func (m *RWMutex) RLocker() sync.Locker { return (*rlocker)(m) }
+
+// Once stands in for sync.Once.
+type Once struct {
+	done uint32
+	m    Mutex
+}
+
+func (o *Once) Do(f func()) {
+	if atomic.LoadUint32(&o.done) == 1 {
+		return
+	}
+	o.m.Lock()
+	defer o.m.Unlock()
+	if o.done == 0 {
+		defer atomic.StoreUint32(&o.done, 1)
+		f()
+	}
+}
+
+// WaitGroup stands in for sync.WaitGroup.
+type WaitGroup struct{ n int64 }
+
+func (w *WaitGroup) Add(delta int) {
+	if atomic.AddInt64(&w.n, int64(delta)) < 0 {
+		panic("sync: negative WaitGroup counter")
+	}
+}
+func (w *WaitGroup) Done() { w.Add(-1) }
+func (w *WaitGroup) Wait() {
+	for atomic.LoadInt64(&w.n) > 0 {
+		block()
+	}
+}
 `
 
 const yieldText = "verifhook.Yield(); "
 
-// instrumentFile inserts the yield call TEXTUALLY at the byte offset of every
-// statement start (positions from go/parser), then gofmt's the result. Working
-// on text keeps every comment and build constraint exactly where it was.
+// shimmed are the blocking primitives of package sync that verifhook has a
+// cooperative stand-in for; unsupported ones keep a package uninstrumented.
+var shimmed = map[string]bool{"Mutex": true, "RWMutex": true, "Once": true, "WaitGroup": true}
+var unsupported = map[string]bool{"Cond": true, "NewCond": true, "OnceFunc": true, "OnceValue": true, "OnceValues": true}
+
+func parse(path string, src []byte) (*token.FileSet, *ast.File, error) {
+	fset := token.NewFileSet()
+	f, err := parser.ParseFile(fset, path, src, parser.ParseComments)
+	return fset, f, err
+}
+
+func syncImportName(f *ast.File) string {
+	for _, im := range f.Imports {
+		if im.Path.Value == `"sync"` {
+			if im.Name != nil {
+				return im.Name.Name
+			}
+			return "sync"
+		}
+	}
+	return ""
+}
+
+// shimSync replaces sync.Mutex / RWMutex / Once / WaitGroup by their verifhook
+// stand-ins (text edits at the selector positions).
+func shimSync(path string, src []byte) ([]byte, int, error) {
+	fset, f, err := parse(path, src)
+	if err != nil {
+		return nil, 0, err
+	}
+	name := syncImportName(f)
+	if name == "" {
+		return src, 0, nil
+	}
+	type edit struct {
+		from, to int
+		text     string
+	}
+	var edits []edit
+	ast.Inspect(f, func(n ast.Node) bool {
+		if se, ok := n.(*ast.SelectorExpr); ok {
+			if id, ok := se.X.(*ast.Ident); ok && id.Name == name && shimmed[se.Sel.Name] {
+				edits = append(edits, edit{fset.Position(se.Pos()).Offset, fset.Position(se.End()).Offset, "verifhook." + se.Sel.Name})
+			}
+		}
+		return true
+	})
+	if len(edits) == 0 {
+		return src, 0, nil
+	}
+	sort.Slice(edits, func(i, j int) bool { return edits[i].from > edits[j].from })
+	out := append([]byte(nil), src...)
+	for _, e := range edits {
+		out = append(append(append([]byte(nil), out[:e.from]...), e.text...), out[e.to:]...)
+	}
+	// the import of sync may have lost its last use
+	out = append(out, []byte("\n\nvar _ "+name+".Locker\n")...)
+	return out, len(edits), nil
+}
+
+// rewriteGo turns every go statement into a call of verifhook.Go. The function
+// value and the arguments are evaluated by the caller first, exactly as the go
+// statement does; only the call itself runs in the new task. Innermost
+// statements first, re-parsing after each rewrite.
+func rewriteGo(path string, src []byte) ([]byte, int, error) {
+	count := 0
+	for {
+		fset, f, err := parse(path, src)
+		if err != nil {
+			return nil, 0, err
+		}
+		var target *ast.GoStmt
+		ast.Inspect(f, func(n ast.Node) bool {
+			g, ok := n.(*ast.GoStmt)
+			if !ok || target != nil {
+				return target == nil
+			}
+			inner := false
+			ast.Inspect(g.Call, func(m ast.Node) bool {
+				if _, ok := m.(*ast.GoStmt); ok {
+					inner = true
+				}
+				return !inner
+			})
+			if !inner {
+				target = g
+			}
+			return true
+		})
+		if target == nil {
+			return src, count, nil
+		}
+		off := func(p token.Pos) int { return fset.Position(p).Offset }
+		var b bytes.Buffer
+		b.WriteString("{\n__vf := ")
+		b.Write(src[off(target.Call.Fun.Pos()):off(target.Call.Fun.End())])
+		b.WriteString("\n")
+		var call bytes.Buffer
+		call.WriteString("__vf(")
+		for i, a := range target.Call.Args {
+			if i > 0 {
+				call.WriteString(", ")
+			}
+			text := src[off(a.Pos()):off(a.End())]
+			inline := false
+			switch x := a.(type) {
+			case *ast.BasicLit:
+				inline = true
+			case *ast.Ident:
+				inline = x.Name == "nil" || x.Name == "true" || x.Name == "false"
+			}
+			if inline {
+				call.Write(text)
+			} else {
+				fmt.Fprintf(&b, "__va%d := %s\n", i, text)
+				fmt.Fprintf(&call, "__va%d", i)
+			}
+			if i == len(target.Call.Args)-1 && target.Call.Ellipsis.IsValid() {
+				call.WriteString("...")
+			}
+		}
+		call.WriteString(")")
+		b.WriteString("verifhook.Go(func() { ")
+		b.Write(call.Bytes())
+		b.WriteString(" })\n}")
+		src = append(append(append([]byte(nil), src[:off(target.Pos())]...), b.Bytes()...), src[off(target.End()):]...)
+		count++
+	}
+}
+
+// instrumentFile rewrites one file: sync stand-ins, go statements, then the
+// yield call inserted TEXTUALLY at the byte offset of every statement start
+// (positions from go/parser); the result is gofmt'ed. Working on text keeps
+// every comment and build constraint exactly where it was.
 func instrumentFile(path string) (int, error) {
 	src, err := os.ReadFile(path)
 	if err != nil {
 		return 0, err
 	}
-	fset := token.NewFileSet()
-	f, err := parser.ParseFile(fset, path, src, parser.ParseComments)
+	src, nsync, err := shimSync(path, src)
+	if err != nil {
+		return 0, err
+	}
+	src, ngo, err := rewriteGo(path, src)
+	if err != nil {
+		return 0, err
+	}
+	fset, f, err := parse(path, src)
 	if err != nil {
 		return 0, err
 	}
@@ -79,7 +340,7 @@ func instrumentFile(path string) (int, error) {
 		}
 		return true
 	})
-	if len(offsets) == 0 {
+	if len(offsets) == 0 && nsync == 0 && ngo == 0 {
 		return 0, nil
 	}
 	sort.Ints(offsets)
@@ -98,13 +359,21 @@ func instrumentFile(path string) (int, error) {
 	var withImport bytes.Buffer
 	withImport.Write(text[:pkgEnd])
 	withImport.WriteString("\n\nimport \"github.com/openacid/low/verifhook\"\n")
+	if len(offsets) == 0 && ngo == 0 {
+		// only type names were replaced: nothing may call into the package
+		withImport.WriteString("\nvar _ = verifhook.Yield\n")
+	}
 	withImport.Write(text[pkgEnd:])
 	formatted, err := format.Source(withImport.Bytes())
 	if err != nil {
 		return 0, fmt.Errorf("gofmt of the rewritten file failed: %v", err)
 	}
+	nGoStmts += ngo
+	nSyncRefs += nsync
 	return len(offsets), os.WriteFile(path, formatted, 0o644)
 }
+
+var nGoStmts, nSyncRefs int
 
 func main() {
 	if len(os.Args) < 3 {
@@ -116,16 +385,27 @@ func main() {
 		fmt.Fprintln(os.Stderr, "yieldinject: refusing to rewrite /repo itself")
 		os.Exit(2)
 	}
+	if err := os.MkdirAll(filepath.Join(root, "verifhook"), 0o755); err != nil {
+		fmt.Fprintln(os.Stderr, err)
+		os.Exit(1)
+	}
+	if err := os.WriteFile(filepath.Join(root, "verifhook", "hook.go"), []byte(hookPkg), 0o644); err != nil {
+		fmt.Fprintln(os.Stderr, err)
+		os.Exit(1)
+	}
 	total, files := 0, 0
 	for _, pkg := range os.Args[2:] {
 		matches, _ := filepath.Glob(filepath.Join(root, pkg, "*.go"))
-		// A package that uses BLOCKING synchronisation is left uninstrumented:
-		// the cooperative scheduler must never switch tasks while the code under
-		// test holds a lock (the other task would block for real and the
-		// simulation would deadlock — a false alarm). Such a package is still
-		// covered by the -race flavour, where tasks switch only between calls.
-		// Non-blocking primitives (sync/atomic, sync.Pool, sync.Map) are fine: no
-		// yield point lies inside the standard library.
+		// Blocking synchronisation: sync.Mutex, RWMutex, Once and WaitGroup are
+		// replaced by cooperative stand-ins (package verifhook) and go statements
+		// by verifhook.Go, so the scheduler may switch tasks while the code under
+		// test holds a lock — the other task gives way instead of blocking for
+		// real. A package that uses a primitive WITHOUT a stand-in (sync.Cond,
+		// OnceFunc, …) is left uninstrumented: a real block inside a cooperative
+		// schedule would deadlock the simulation — a false alarm. Such a package is
+		// still covered by the -race flavour, where tasks switch only between
+		// calls. Non-blocking primitives (sync/atomic, sync.Pool, sync.Map) are
+		// fine: no yield point lies inside the standard library.
 		blocking := ""
 		for _, m := range matches {
 			if strings.HasSuffix(m, "_test.go") {
@@ -137,25 +417,28 @@ func main() {
 			if err != nil {
 				continue
 			}
-			syncName := ""
-			for _, im := range f.Imports {
-				if im.Path.Value == `"sync"` {
-					syncName = "sync"
-					if im.Name != nil {
-						syncName = im.Name.Name
+			// channel operations block for real: once goroutines are simulated
+			// tasks, a task parked on a channel would wait for a task that only
+			// runs when the parked one gives way
+			ast.Inspect(f, func(n ast.Node) bool {
+				switch x := n.(type) {
+				case *ast.ChanType, *ast.SendStmt, *ast.SelectStmt:
+					blocking = "channels"
+				case *ast.UnaryExpr:
+					if x.Op == token.ARROW {
+						blocking = "channels"
 					}
 				}
-			}
+				return true
+			})
+			syncName := syncImportName(f)
 			if syncName == "" {
 				continue
 			}
 			ast.Inspect(f, func(n ast.Node) bool {
 				if se, ok := n.(*ast.SelectorExpr); ok {
-					if id, ok := se.X.(*ast.Ident); ok && id.Name == syncName {
-						switch se.Sel.Name {
-						case "Mutex", "RWMutex", "Once", "Cond", "NewCond", "WaitGroup", "Locker", "OnceFunc", "OnceValue", "OnceValues":
-							blocking = "sync." + se.Sel.Name
-						}
+					if id, ok := se.X.(*ast.Ident); ok && id.Name == syncName && unsupported[se.Sel.Name] {
+						blocking = "sync." + se.Sel.Name
 					}
 				}
 				return true
@@ -165,31 +448,47 @@ func main() {
 			}
 		}
 		if blocking != "" {
-			fmt.Printf("yieldinject: package %s uses %s: NOT instrumented\n", pkg, blocking)
+			fmt.Printf("yieldinject: package %s uses %s (no cooperative stand-in): NOT instrumented\n", pkg, blocking)
 			continue
 		}
+		saved := map[string][]byte{}
+		pkgTotal, pkgFiles := 0, 0
+		failed := ""
 		for _, m := range matches {
 			if strings.HasSuffix(m, "_test.go") {
 				continue
 			}
+			orig, _ := os.ReadFile(m)
+			saved[m] = orig
 			n, err := instrumentFile(m)
 			if err != nil {
-				fmt.Fprintf(os.Stderr, "yieldinject: %s: %v\n", m, err)
-				os.Exit(1)
+				failed = fmt.Sprintf("%s: %v", m, err)
+				break
 			}
-			total += n
+			pkgTotal += n
 			if n > 0 {
-				files++
+				pkgFiles++
 			}
 		}
+		if failed == "" {
+			// the rewritten package must still compile (a go statement whose
+			// operands cannot be bound to variables, e.g. a builtin or an
+			// uninstantiated generic function, does not)
+			cmd := exec.Command("go", "build", "./"+pkg+"/")
+			cmd.Dir = root
+			if out, err := cmd.CombinedOutput(); err != nil {
+				failed = "the rewritten package does not compile: " + strings.TrimSpace(string(out))
+			}
+		}
+		if failed != "" {
+			for m, orig := range saved {
+				_ = os.WriteFile(m, orig, 0o644)
+			}
+			fmt.Printf("yieldinject: package %s NOT instrumented (%s)\n", pkg, failed)
+			continue
+		}
+		total += pkgTotal
+		files += pkgFiles
 	}
-	if err := os.MkdirAll(filepath.Join(root, "verifhook"), 0o755); err != nil {
-		fmt.Fprintln(os.Stderr, err)
-		os.Exit(1)
-	}
-	if err := os.WriteFile(filepath.Join(root, "verifhook", "hook.go"), []byte(hookPkg), 0o644); err != nil {
-		fmt.Fprintln(os.Stderr, err)
-		os.Exit(1)
-	}
-	fmt.Printf("yieldinject: %d yield points in %d files\n", total, files)
+	fmt.Printf("yieldinject: %d yield points in %d files; %d sync primitives replaced by cooperative stand-ins, %d go statements turned into simulated tasks\n", total, files, nSyncRefs, nGoStmts)
 }
